@@ -1,7 +1,7 @@
 (* C10 -- Building is total: Ok or a documented Err, never a panic or overflow. *)
 From Coq Require Import NArith List Bool Arith Lia.
 From FQ Require Import Generated.Tables Model.Types Model.Hardcode Model.Compact Model.Encode Model.Qr Spec.Iso
-  Proofs.Tables Proofs.GeomSafe Proofs.BuildMatrix Proofs.Decode Proofs.PushBits Proofs.EncodeIso.
+  Model.Default Model.Masking Model.Score Proofs.Tables Proofs.GeomSafe Proofs.BuildMatrix Proofs.Decode Proofs.PushBits Proofs.EncodeIso Proofs.Select Proofs.ScoreSafe.
 Import ListNotations.
 
 (* The model makes every Rust panic site explicit: Panic 1 alphabet assertion, 2 usize underflow in add_terminator, 3 u8 `+=`
@@ -36,6 +36,15 @@ Theorem C10_bit_buffer_never_panics : forall m e v input,
   fill_panics (pad_to_8 (add_terminator c1 (data_bits v e))) = false.
 Proof. exact encode_is_iso_strong. Qed.
 Print Assumptions C10_bit_buffer_never_panics.
+
+(* scoring of every candidate of the selection loop: the PERCENT_SCORE look-up is in bounds (there is always a light
+   module) and the u32 score cannot overflow *)
+Theorem C10_scoring_never_panics : forall v bytes j, v < 40 ->
+  let n := version_size v in
+  let cand := apply_mask n (placed_matrix v bytes) j in
+  dark_panics n cand = false /\ (score n cand (transpose n cand) < 4294967295)%N.
+Proof. exact candidates_score_safely. Qed.
+Print Assumptions C10_scoring_never_panics.
 
 (* the predicate can say Panic: a forced Numeric mode on letters is a panic in the model as in the code *)
 Example C10_negative_control : build [49; 50; 97; 52]%N {| o_mode := Some Numeric; o_ecl := None; o_version := None; o_mask := None |} = Panic 1.
